@@ -2,3 +2,5 @@ pub mod parser;
 pub mod positions;
 pub mod recovery;
 pub mod ide_sweep;
+pub mod history;
+pub mod cancel;
